@@ -116,6 +116,17 @@ def run_table_sort(chk, spec):
 	if spec.get("reverse_form", "bool") == "bool":
 		revs = [revs[0]] * len(keycols)
 	na_last = spec["na_last"]
+	if spec.get("stale"):
+		# every column's dtype says nullable although it holds no None any more (a None was stored and overwritten): still the input, still unchanged afterwards
+		for col in t.cols():
+			if len(col) and col._underlying[0] is not None:
+				x0 = col._underlying[0]
+				if call(col.__setitem__, 0, None).ok:
+					call(col.__setitem__, 0, x0)
+	if spec.get("prefingerprint"):
+		# every fingerprint that can be memoised is memoised before the call
+		call(t.fingerprint)
+		[call(c.fingerprint) for c in t.cols()]
 	before = M.snap_table(t)
 	o = call(lambda: t.sort_by(key_arg(t, spec), reverse=reverse_arg(spec), na_last=na_last))
 	n = len(ids)
@@ -361,13 +372,35 @@ def gen_sort_spec(rng, max_rows=8):
 		revs.append(not revs[j])
 		nkeys += 1
 		form = rng.choice(["list", "tuple"])
-	return {"rewrite": rng.random() < 0.35, "table": {"names": names, "cols": cols}, "by": by, "reverse": revs, "reverse_form": form, "na_last": rng.random() < 0.6,
+	return {"stale": rng.random() < 0.25, "prefingerprint": rng.random() < 0.25, "rewrite": rng.random() < 0.35, "table": {"names": names, "cols": cols}, "by": by, "reverse": revs, "reverse_form": form, "na_last": rng.random() < 0.6,
 		"scalar_by": nkeys == 1 and rng.random() < 0.5, "by_container": rng.choice(["list", "tuple"]), "id_first": rng.random() < 0.3}
+
+
+def directed_sort_specs(rng):
+	out = []
+	P = 2 ** 61 - 1
+	# a second key that differs from the first only in cells hash() cannot tell apart - at rows that tie on the first
+	for a, b in (([-1, -1, 5, 5, -1], [-1, -2, 5, 5, -2]), ([0, 0, 3, 0], [P, 0, 3, 0]), ([7, 7, 7], [7 + P, 7, 7 + 2 * P]), ([-2, -2, 1], [-1, -2, 1])):
+		for revs in ([False, False], [False, True], [True, False]):
+			for modes in (("name", "name"), ("vector", "name"), ("name", "vector")):
+				out.append({"rewrite": False, "table": {"names": ["a", "b", "pay"], "cols": [list(a), list(b), [f"p{i}" for i in range(len(a))]]}, "by": [{"mode": modes[0], "name": "a"}, {"mode": modes[1], "name": "b"}],
+					"reverse": list(revs), "reverse_form": "list", "na_last": True, "scalar_by": False, "by_container": "list", "id_first": False, "prefingerprint": True})
+	# a str key vector whose cells spell the table's own column labels, passed as a bare vector: it is a key like any other
+	for cells_ in (["dst", "src", "w", "src", "dst"], ["w", "w", "src"], ["src"], ["dst", "src"]):
+		n = len(cells_)
+		for mode in ("vector", "external"):
+			for revform, rev in (("bool", [True]), ("bool", [False]), ("list", [False])):
+				ref = {"mode": "vector", "name": "src"} if mode == "vector" else {"mode": "external", "values": list(cells_), "name": None}
+				out.append({"rewrite": False, "table": {"names": ["src", "dst", "w"], "cols": [list(cells_), [rng.choice(["a", "b", "c"]) for _ in range(n)], [rng.randrange(5) for _ in range(n)]]}, "by": [ref],
+					"reverse": list(rev), "reverse_form": revform, "na_last": True, "scalar_by": True, "by_container": "list", "id_first": False})
+	return out
 
 
 def run(chk):
 	recompute.add_cases(chk, "C14")
 	rng = chk.rng
+	for spec in directed_sort_specs(rng):
+		chk.case("table_sort", spec, "table-sort-directed")
 	idx = 0
 	for n in range(0, 6):
 		for keys in itertools.product([None, 1, 2], repeat=n):
